@@ -354,89 +354,105 @@ enum ListInhabited {
     Yes,
     No,
 }
+
+// Is there a list of exactly `s.len()` elements, the i-th taken from `s[i]`, that lies in none of the negated
+// lists `negs[from..]` (each given as the element types it imposes on a list of that length)?
+// This is formula Phi' in section 7.3.1 of Alain Frisch's PhD thesis for products of arbitrary width:
+// to stay out of a negative, some position must leave it, and the remaining negatives are checked
+// with that position narrowed. Precondition: every member of `s` is inhabited.
+fn fixed_length_list_inhabited(
+    s: &[Rc<SemType>],
+    negs: &[Vec<Rc<SemType>>],
+    from: usize,
+    builder: &mut SemTypeContext,
+) -> Result<bool> {
+    if from == negs.len() {
+        return Ok(true);
+    }
+    let nt = &negs[from];
+    for i in 0..s.len() {
+        let d = s[i].diff(&nt[i])?;
+        if !d.is_empty(builder)? {
+            let mut narrowed = s.to_vec();
+            narrowed[i] = d;
+            if fixed_length_list_inhabited(&narrowed, negs, from + 1, builder)? {
+                return Ok(true);
+            }
+        }
+    }
+    // in particular the empty list cannot leave a negative that contains the empty list
+    Ok(false)
+}
+
 // This function returns true if there is a list shape v such that
-// is in the type described by `members` and `rest`, and
-// for each tuple t in `neg`, v is not in t.
+// is in the type described by `prefix_items` and `items`, and
+// for each list type t in `neg`, v is not in t.
 // `neg` represents a set of negated list types.
-// Precondition is that each of `members` is not empty.
-// This is formula Phi' in section 7.3.1 of Alain Frisch's PhD thesis,
-// generalized to tuples of arbitrary length.
+// Precondition is that each of `prefix_items` is not empty.
+// Lists of different lengths are independent: every length from the positive prefix length up to the
+// longest prefix plus one extra position per negative is tried with the fixed-length formula (beyond that,
+// further positions are only more copies of the rest types).
 fn list_inhabited(
     prefix_items: &mut Vec<Rc<SemType>>,
     items: &Rc<SemType>,
     neg: &Option<Rc<Conjunction>>,
     builder: &mut SemTypeContext,
 ) -> Result<ListInhabited> {
-    match neg {
-        None => Ok(ListInhabited::Yes),
-        Some(neg) => {
-            let mut len = prefix_items.len();
-            let nt = match neg.atom {
-                Atom::List(a) => builder.get_list_atomic(a),
-                Atom::Set(a) => builder.get_set_atomic(a),
-                _ => unreachable!(),
-            };
-            let neg_len = nt.prefix_items.len();
-            if len < neg_len {
-                if items.is_never() {
-                    return list_inhabited(prefix_items, items, &neg.next, builder);
-                }
-                for _i in len..neg_len {
-                    prefix_items.push(items.clone());
-                }
-                len = neg_len;
-            } else if neg_len < len && nt.items.is_never() {
-                return list_inhabited(prefix_items, items, &neg.next, builder);
-            }
+    let mut negs: Vec<Rc<ListAtomic>> = vec![];
+    let mut cur = neg.clone();
+    while let Some(n) = cur {
+        negs.push(match n.atom {
+            Atom::List(a) => builder.get_list_atomic(a),
+            Atom::Set(a) => builder.get_set_atomic(a),
+            _ => unreachable!(),
+        });
+        cur = n.next.clone();
+    }
+    if negs.is_empty() {
+        return Ok(ListInhabited::Yes);
+    }
 
-            // now we have nt.members.length() <= len
+    let min_len = prefix_items.len();
+    let longest_prefix = negs
+        .iter()
+        .map(|n| n.prefix_items.len())
+        .max()
+        .unwrap_or(0)
+        .max(min_len);
+    let max_len = if items.is_never() || items.is_empty(builder)? {
+        min_len
+    } else {
+        longest_prefix + negs.len()
+    };
 
-            // This is the heart of the algorithm.
-            // For [v0, v1] not to be in [t0,t1], there are two possibilities
-            // (1) v0 is not in t0, or
-            // (2) v1 is not in t1
-            // Case (1)
-            // For v0 to be in s0 but not t0, d0 must not be empty.
-            // We must then find a [v0,v1] satisfying the remaining negated tuples,
-            // such that v0 is in d0.
-            // SemType d0 = diff(s[0], t[0]);
-            // if !isEmpty(tc, d0) && tupleInhabited(tc, [d0, s[1]], neg.rest) {
-            //     return true;
-            // }
-            // Case (2)
-            // For v1 to be in s1 but not t1, d1 must not be empty.
-            // We must then find a [v0,v1] satisfying the remaining negated tuples,
-            // such that v1 is in d1.
-            // SemType d1 = diff(s[1], t[1]);
-            // return !isEmpty(tc, d1) &&  tupleInhabited(tc, [s[0], d1], neg.rest);
-            // We can generalize this to tuples of arbitrary length.
-
-            for i in 0..len {
-                let ntm = if i < neg_len {
-                    nt.prefix_items[i].clone()
-                } else {
-                    nt.items.clone()
-                };
-                let d = prefix_items[i].diff(&ntm)?;
-                if !d.is_empty(builder)? {
-                    let mut s = prefix_items.clone();
-                    s[i] = d;
-                    if let ListInhabited::Yes = list_inhabited(&mut s, items, &neg.next, builder)? {
-                        return Ok(ListInhabited::Yes);
-                    }
-                }
-            }
-
-            let diff = items.diff(&nt.items)?;
-            if let IsEmptyStatus::NotEmpty = diff.is_empty_status(builder)? {
-                return Ok(ListInhabited::Yes);
-            }
-
-            // This is correct for length 0, because we know that the length of the
-            // negative is 0, and [] - [] is empty.
-            Ok(ListInhabited::No)
+    for len in min_len..=max_len {
+        let mut s = prefix_items.clone();
+        while s.len() < len {
+            s.push(items.clone());
+        }
+        // the negatives that contain lists of this length at all
+        let applicable: Vec<Vec<Rc<SemType>>> = negs
+            .iter()
+            .filter(|n| {
+                n.prefix_items.len() == len || (n.prefix_items.len() < len && !n.items.is_never())
+            })
+            .map(|n| {
+                (0..len)
+                    .map(|i| {
+                        if i < n.prefix_items.len() {
+                            n.prefix_items[i].clone()
+                        } else {
+                            n.items.clone()
+                        }
+                    })
+                    .collect()
+            })
+            .collect();
+        if fixed_length_list_inhabited(&s, &applicable, 0, builder)? {
+            return Ok(ListInhabited::Yes);
         }
     }
+    Ok(ListInhabited::No)
 }
 
 fn list_formula_is_empty(
